@@ -1,13 +1,37 @@
-"""C08 - coloured text behaves exactly like the underlying string (bounded complement; proof tier pending)."""
-from checks._bounded import run_bounded_check
+"""C08 - coloured text behaves exactly like the underlying string.
+Bounded-symbolic contracts (chunk lists of <= 2/3 chunks, all texts, colours, indexes and bounds symbolic)
++ the model-based bounded driver.  Nothing here is counted as an unbounded proof."""
+import time
+
+from vlib.common import finish
+from vlib.bounded import Bounded
+from harness import c08 as driver
+from checks._proof import proof_subobligations
+
+PROP = 'C08'
 
 
 def run():
-    return run_bounded_check(
-        'C08', 'harness.c08',
+    t0 = time.time()
+    pv, pu, pe, ppart, passumed = proof_subobligations(PROP, ['contracts.c08_chtext'], ['ak.color'])
+    b = Bounded(PROP, 'harness.c08')
+    try:
+        driver.run(b)
+    except Exception as e:      # noqa
+        b.error(f"bounded driver crashed: {e!r}")
+    cov = b.coverage(
         "exhaustive slices/indexes over -8..8 and None, fixed_len 0..9 and a format-spec grid on fixed texts, then seeded "
         "sequences of <= 8 public CHText operations over 3 colours against a list-of-(char, colour) model cross-checked "
         "with a plain str shadow; non-trivial = some step has >= 2 chunks and a slice crosses a chunk boundary",
-        ["format specs limited to [[fill]align][width]['s'] without the zero flag; fixed_len n >= 0",
-         "'t += [.., t, ..]' skipped (operand mutates while consumed; str has no analogue)",
-         "colour of fill characters not demanded"])
+        extra=ppart)
+    seen, viol = set(), []
+    for v in pv + b.violations():
+        if v.key not in seen:
+            seen.add(v.key)
+            viol.append(v)
+    return finish(PROP, 'exploration', viol, pu, pe + b.errors, cov, passumed + [
+        "bounded-symbolic obligations: chunk lists of at most 2 (quick) / 3 (thorough) chunks; texts, colour prefixes, "
+        "indexes, slice bounds and lengths are arbitrary (symbolic)",
+        "format specs limited to [[fill]align][width]['s'] without the zero flag; fixed_len n >= 0",
+        "'t += [.., t, ..]' skipped (operand mutates while consumed; str has no analogue)",
+        "colour of fill characters not demanded"], t0)
